@@ -30,7 +30,8 @@ sys.path.insert(0, os.path.dirname(__file__))
 import C08 as H  # noqa: E402  (generators, token encoders and the effect bookkeeping of the trajectory model)
 
 RULE = ("(A) aliasing scenario = (constructor, cache state from 0-3 reads, derivation in {deepcopy, associate, merge, "
-        "split_time_gaps, split_distance_gaps, split_speed_outliers (cut / nothing to cut), the object itself as control}, "
+        "split_time_gaps, split_distance_gaps, split_speed_outliers (cut / nothing to cut), align_origin / align of a second trajectory "
+        "to it, the object itself as control}, "
         "mutating history of length 1-5 over {transform L/R/P incl. Sim(3), scale, reduce, project, align, motion filter, "
         "align_origin, reads}); compared with the heap model: sharing per derived object, source changed or not, per-operation "
         "allocation behaviour; (B) every public function / method of evo.core.{metrics,sync,filters,geometry,result,trajectory,"
@@ -47,7 +48,7 @@ MODELLED = [T_ + "PosePath3D." + f for f in ("__init__", "positions_xyz", "orien
        "evo/core/sync.py:associate_trajectories", "evo/core/sync.py:matching_time_indices", "evo/core/result.py:merge_results"]
 
 MUT = ("tf", "sc", "red", "pj", "al", "mf", "ao", "ds")
-DERIVS = ("copy", "assoc", "merge", "split_time", "split_dist", "split_speed", "self")
+DERIVS = ("copy", "assoc", "merge", "split_time", "split_dist", "split_speed", "self", "align_origin", "align")
 
 
 # ----------------------------------------------------------------------------- scenario generation
@@ -234,6 +235,29 @@ def run_scenario(case):
         ids = [int(np.where(st == t)[0][0]) for t in B1.timestamps]
         derived, dtok, k = [B1], f"assoc {core.natlist(ids)}", 0
         info["second_derived"] = B2
+    elif d in ("align_origin", "align"):
+        # B = a second trajectory aligned to A: A is only read (est.align_origin(ref) / est.align(ref))
+        from evo.core import geometry, lie_algebra as lie
+        B0 = second_input(case, A)
+        b_init = H.init_toks({"ctor": "pq", "xyz": np.array(B0.positions_xyz).tolist(),
+                              "quat": np.array(B0.orientations_quat_wxyz).tolist(), "stamps": np.array(B0.timestamps).tolist()})
+        if d == "align_origin":
+            T = B0.align_origin(A)
+            rd, ob = ["rd se3"], ["rd se3", f"tf L {H.pose_toks(T)} {H.norm_tok(T)}"]
+        else:
+            mode = "rso"[int(case["which"] * 3) % 3]
+            try:
+                r_a, t_a, c = B0.align(A, correct_scale=mode == "s", correct_only_scale=mode == "o")
+            except geometry.GeometryException:
+                return None
+            T = lie.se3(r_a, t_a)
+            rd, ob = ["rd pos"], ["rd pos"]
+            if mode in "so":
+                ob.append(f"sc {rat(float(c))}")
+            if mode in "rs":
+                ob.append(f"tf L {H.pose_toks(T)} {H.norm_tok(T)}")
+        derived, k = [B0], 0
+        dtok = f"other {b_init} {len(rd)} {' '.join(rd)} {len(ob)} {' '.join(ob)}"
     elif d == "merge":
         A2 = second_input(case, A)
         before2 = shown(A2)
@@ -380,6 +404,73 @@ MUTATORS = {"transform", "scale", "project", "align", "align_origin", "reduce_to
             "__init__"}
 PROPERTIES = {"PosePath3D": ["positions_xyz", "orientations_quat_wxyz", "poses_se3", "distances", "path_length", "num_poses"],
               "PoseTrajectory3D": ["positions_xyz", "orientations_quat_wxyz", "poses_se3", "distances", "path_length", "num_poses", "speeds"]}
+
+
+# by reference by design (documented, not flagged): the receiver stores / hands out the argument itself
+BYREF = {"add_trajectory": "Result.add_trajectory stores the trajectory object it is given",
+         "add_np_array": "Result.add_np_array stores the array it is given", "add_info": "stores the values of the dict",
+         "add_stats": "stores the values of the dict", "add_figure": "PlotCollection keeps the figure",
+         "__init__": "constructors keep poses_se3 / meta by reference (np.array copies the other arrays)",
+         "so3_from_se3": "accessor: returns the rotation block of its argument as a view"}
+BYREF_RECV = {"get_result": "the Result holds the metric's own error array (C12 covers change_unit after get_result)"}
+
+
+def graph_of(x):
+    """(ndarrays, evo objects) reachable from x through lists, tuples, dicts, object arrays, DataFrames and the attributes
+    of evo objects — generic, so that an alias anywhere in a result is seen"""
+    arrays, objs, seen = [], [], set()
+
+    def walk(v, depth):
+        if id(v) in seen or depth > 8:
+            return
+        seen.add(id(v))
+        if isinstance(v, np.ndarray):
+            if v.dtype == object:
+                for w in v.flat:
+                    walk(w, depth + 1)
+            elif v.size:
+                arrays.append(v)
+            return
+        if isinstance(v, dict):
+            for w in v.values():
+                walk(w, depth + 1)
+        elif isinstance(v, (list, tuple, set)):
+            for w in v:
+                walk(w, depth + 1)
+        elif type(v).__module__.startswith("pandas."):
+            try:
+                for c in v.columns:
+                    a = v[c].values
+                    if isinstance(a, np.ndarray) and a.dtype != object and a.size:
+                        arrays.append(a)
+            except Exception:  # noqa: BLE001
+                pass
+        elif type(v).__module__.startswith("evo.") and hasattr(v, "__dict__") and not isinstance(v, type):
+            objs.append(v)
+            for w in vars(v).values():
+                walk(w, depth + 1)
+    walk(x, 0)
+    return arrays, objs
+
+
+def mutate_in_place(root):
+    """later in-place operations on a derived object: project() on every trajectory in it, then a write through every
+    array it reaches (poses_se3[k][:] = …, positions_xyz[:] = …, timestamps, result arrays)"""
+    from evo.core.trajectory import PosePath3D, Plane
+    _, objs = graph_of(root)
+    for o in objs:
+        if isinstance(o, PosePath3D) and not o._projected and o.num_poses > 0:
+            try:
+                o.project(Plane.XY)
+            except Exception:  # noqa: BLE001
+                pass
+    arrays, _ = graph_of(root)
+    for a in arrays:
+        if a.flags.writeable and a.dtype.kind in "fiu":
+            try:
+                a[...] = a * 2 + 1
+            except Exception:  # noqa: BLE001
+                pass
 
 
 class Skip(Exception):
@@ -827,18 +918,39 @@ def frame_case(ctx, qual, cls, fn, variant, tmp):
     changed = [k for k, v in args.items() if deep_snap(v) != before[k]]
     if check_recv and deep_snap(recv) != before_recv:
         changed.append("self")
-    # results that are trajectories must not share arrays with trajectory arguments
-    shared = []
-    from evo.core.trajectory import PosePath3D
-    outs = [x for x in (list(result) if isinstance(result, (list, tuple)) else [result]) if isinstance(x, PosePath3D)]
-    ins = [(k, x) for k, v in args.items() for x in (v if isinstance(v, (list, tuple)) else [v]) if isinstance(x, PosePath3D)]
-    if isinstance(recv, PosePath3D):
-        ins.append(("self", recv))
-    for o in outs:
-        for k, x in ins:
-            if o is x or shares(o, x):
-                shared.append(k)
-    return status, changed, shared, args
+    # ---- derived objects must be independent of their sources (generic over the object graph)
+    shared, touched = [], []
+    short = qual.rsplit(".", 1)[-1]
+    roots = [("result", result)]
+    if cls is not None and not isinstance(fn, property) and short in MUTATORS and short not in BYREF:
+        roots.append(("self", recv))          # the receiver has been operated on with these arguments: it is derived from them
+    for rname, root in roots:
+        if root is None or short in BYREF:
+            continue
+        d_arr, d_obj = graph_of(root)
+        if not d_arr:
+            continue
+        sources = [(k, v) for k, v in args.items()]
+        # the receiver is a source of the *result* only when the result is object-valued (trajectories, Results): plain
+        # arrays / lists returned by accessors (positions_xyz, poses_se3, …) are views of the receiver by design
+        if rname == "result" and recv is not None and d_obj and short not in BYREF_RECV:
+            sources.append(("self", recv))
+        src = []
+        for k, v in sources:
+            a, _ = graph_of(v)
+            if a:
+                src.append((k, v, a))
+        for k, v, a in src:
+            if any(x is y or np.shares_memory(x, y) for x in d_arr for y in a):
+                shared.append(f"{rname}<-{k}")
+        if not src:
+            continue
+        post = {k: deep_snap(v) for k, v, _ in src}
+        mutate_in_place(root)
+        for k, v, _ in src:
+            if deep_snap(v) != post[k]:
+                touched.append(f"{rname}<-{k}")
+    return status, changed, shared, touched, args
 
 
 def run_frames(ctx):
@@ -853,7 +965,7 @@ def run_frames(ctx):
         for v in range(variants):
             case = {"part": "B", "callable": qual, "variant": v}
             try:
-                status, changed, shared, args = frame_case(ctx, qual, cls, fn, v, tmp)
+                status, changed, shared, touched, args = frame_case(ctx, qual, cls, fn, v, tmp)
             except Skip as e:
                 uncovered[qual] = str(e)
                 break
@@ -869,8 +981,11 @@ def run_frames(ctx):
                 ctx.fail(case, "argument-modified", f"{qual} modified its argument(s) {changed} ({status})",
                          {"callable": short})
             if shared:
-                ctx.fail(case, "derived-shares-memory", f"{qual} returned a trajectory sharing arrays with its argument(s) {shared}",
+                ctx.fail(case, "derived-shares-memory", f"{qual}: the derived object shares arrays with its source(s) {shared}",
                          {"callable": short})
+            if touched:
+                ctx.fail(case, "source-changed-by-mutating-derived", f"{qual}: in-place operations (project, writes through every "
+                         f"array) on the derived object changed {touched}", {"callable": short})
             ctx.record(case, status == "returned")
         if ok_any:
             covered += 1
@@ -885,12 +1000,15 @@ def replay_frame(ctx, case):
     tmp = tempfile.mkdtemp(prefix="evo_c16_")
     for qual, cls, fn in callables():
         if qual == case["callable"]:
-            status, changed, shared, _ = frame_case(ctx, qual, cls, fn, case["variant"], tmp)
+            status, changed, shared, touched, _ = frame_case(ctx, qual, cls, fn, case["variant"], tmp)
             short = qual.rsplit(".", 1)[-1]
             if changed:
                 ctx.fail(case, "argument-modified", f"{qual} modified its argument(s) {changed} ({status})", {"callable": short})
             if shared:
-                ctx.fail(case, "derived-shares-memory", f"{qual} returned a trajectory sharing arrays with {shared}", {"callable": short})
+                ctx.fail(case, "derived-shares-memory", f"{qual}: the derived object shares arrays with its source(s) {shared}", {"callable": short})
+            if touched:
+                ctx.fail(case, "source-changed-by-mutating-derived", f"{qual}: in-place operations on the derived object changed {touched}",
+                         {"callable": short})
 
 
 # ----------------------------------------------------------------------------- driver
